@@ -68,7 +68,13 @@ def run(ctx):
             r["option"]["MINIMUM_PERCENT_FED_BEFORE_NONHUMAN_CONSUMPTION_ALLOWED"] = rng.choice([0, 10, 50, 90, 100])
         if rng.random() < 0.3:
             r["option"]["shutoff"] = rng.choice(pools.FAMILIES["shutoff"])
-    runs = pinned + runs
+    # sentinels: large feed-dependent livestock countries where the threshold binds (policy-sensitive cells)
+    sentinels = [{"iso3": c, "option": pools.option(shutoff="continued_after_10_percent_fed", meat_strategy="baseline_breeding",
+                                                     MINIMUM_PERCENT_FED_BEFORE_NONHUMAN_CONSUMPTION_ALLOWED=50)}
+                 for c in (["USA", "BRA"] if ctx.quick else ["USA", "BRA", "ARG", "AUS", "CAN", "FRA", "DEU", "CHN"])]
+    sentinels.append({"iso3": "ARG", "option": pools.option(shutoff="immediate", grasses="baseline", crop_disruption="zero",
+                                                            fish="baseline", nutrition="baseline")})
+    runs = pinned + sentinels + runs
     res = ctx.run_impl("c03_impl", {"demand_cases": dcases, "runs": runs, "procs": 14})
     terms = []
     for c, o in zip(dcases, res["demand"]):
